@@ -3,12 +3,18 @@
 
    G = Model/IndexFile.v (Encoder.Encode, Decoder.Decode of plumbing/format/index),
    parametrised by the checksum function H and its size hs (SHA-1: 20, SHA-256: 32).
-   "git reads ours" and "we read git" are decided on every run by the git 2.39.5
-   binary (C-git, props/C12.py); what is proved here is the part that quantifies over
-   all indexes: go-git's decoder inverts go-git's encoder, for versions 2, 3 and 4,
-   any names (short, >= 0xFFF bytes, shared prefixes), stages, flags and timestamps. *)
+   S = Spec/GitIndex.v: git 2.39's read-cache.c / cache-tree.c / resolve-undo.c /
+   varint.c as git_decode (normal read, fsck read, index.threads > 1) and git_encode,
+   validated against the git 2.39.5 binary on every run (C-git, props/C12.py).
+   Proved here, for versions 2, 3 and 4, any hash size (SHA-1: 20, SHA-256: 32), any
+   names (short, >= 0xFFF bytes, shared prefixes), stages, flags and timestamps:
+   go-git's decoder inverts go-git's encoder (C12_roundtrip); git reads what go-git
+   writes (C12_git_reads_ours, C12_git_fsck_reads_ours); go-git reads what git writes,
+   entries and the extensions TREE / REUC / EOIE, skipping UNTR / FSMN (C12_we_read_git),
+   and refuses git's mandatory sdir extension (C12_we_read_git_sparse_refused). *)
 From Coq Require Import List NArith ZArith Bool String.
-From GoGit Require Import Base.Out Model.IndexFile Proofs.C12 Proofs.C12Size.
+From GoGit Require Import Base.Out Model.IndexFile Spec.GitIndex Proofs.C12 Proofs.C12Size Proofs.C12Git Proofs.C12Digits
+  Proofs.C12WeReadExt Proofs.C12WeRead Proofs.C12Eoie.
 Import ListNotations.
 Local Open Scope N_scope.
 
@@ -63,6 +69,90 @@ Theorem C12_reuc_maporder_refuted :
 Proof. exact reuc_maporder_refuted. Qed.
 Print Assumptions C12_reuc_maporder_refuted.
 
+(* ---- git reads ours ---- *)
+(* do_read_index (no checksum verification: what every git command but fsck does; index.threads unset or 1)
+   on the file go-git wrote yields exactly the encoded entries, sorted, with git's ce_flags
+   (stage, CE_EXTENDED iff intent-to-add or skip-worktree), no extension; also for a version-2 file
+   with extended flags, which git itself never writes *)
+Theorem C12_git_reads_ours : forall hs H skip null_ok ver entries,
+  ver = 2 \/ ver = 3 \/ ver = 4 ->
+  forallb (wf_entry hs) entries = true ->
+  N.of_nat (List.length entries) < 4294967296 ->
+  exists file, encode hs H skip ver entries = Ok file /\
+               git_decode hs H (mkGM false null_ok false) file = GOk (git_view ver (sort_entries entries)).
+Proof. exact git_reads_ours. Qed.
+Print Assumptions C12_git_reads_ours.
+
+(* git fsck (verify_index_checksum, verify_ce_order): the trailer go-git writes is the checksum git
+   recomputes, and the sorted entries pass check_ce_order as long as no merged entry shares its name
+   with another entry.  A null trailer (skip_hash) passes only under git >= 2.40's rule (null_ok);
+   git 2.39.5 rejects it, as the binary confirms on every run. *)
+Theorem C12_git_fsck_reads_ours : forall hs H skip null_ok ver entries,
+  (forall x, List.length (H x) = hs) ->
+  ver = 2 \/ ver = 3 \/ ver = 4 ->
+  forallb (wf_entry hs) entries = true ->
+  N.of_nat (List.length entries) < 4294967296 ->
+  no_merged_dup (sort_entries entries) = true ->
+  skip = false \/ null_ok = true ->
+  exists file, encode hs H skip ver entries = Ok file /\
+               git_decode hs H (mkGM true null_ok false) file = GOk (git_view ver (sort_entries entries)).
+Proof. exact git_fsck_reads_ours. Qed.
+Print Assumptions C12_git_fsck_reads_ours.
+
+(* ---- we read git ---- *)
+(* whatever state git holds (entries with any 32-bit stat fields, nsec >= 10^9 included, assume-valid bit,
+   cache tree, resolve-undo, untracked cache, fsmonitor), with or without the EOIE extension and a null
+   trailer, go-git decodes the file do_write_index produces into: the version git wrote (2 <-> 3 by the
+   extended flags), the entries, the valid cache-tree nodes in pre-order, the resolve-undo records in
+   file order, and the EOIE offset and hash *)
+Theorem C12_we_read_git : forall hs H,
+  (0 < hs)%nat -> N.of_nat hs < 4294967000 -> (forall x, List.length (H x) = hs) ->
+  forall eoie skip_w skip_r g,
+  wf_gindex hs eoie g = true ->
+  decode hs H skip_r (git_encode hs H eoie skip_w g) = Ok (go_view hs H eoie g).
+Proof. exact we_read_git. Qed.
+Print Assumptions C12_we_read_git.
+
+(* the limit of "the extensions go-git understands": a sparse index (mandatory sdir extension), which
+   git reads, is refused with ErrUnknownExtension (as is a split index's `link`, by the same rule) *)
+Theorem C12_we_read_git_sparse_refused : forall hs H,
+  (0 < hs)%nat -> N.of_nat hs < 4294967000 -> (forall x, List.length (H x) = hs) ->
+  forall eoie skip_w skip_r g,
+  wf_gstate hs eoie g = true -> gi_sparse g = true ->
+  decode hs H skip_r (git_encode hs H eoie skip_w g) = Err EUnknownExtension.
+Proof. exact mandatory_refused. Qed.
+Print Assumptions C12_we_read_git_sparse_refused.
+
+(* the cache tree: git's recursive write_one against go-git's flat reader *)
+Theorem C12_we_read_git_tree : forall hs, (0 < hs)%nat -> forall t, wf_ct hs t = true ->
+  read_tree_ext hs (S (List.length (g_write_ct [] t))) (g_write_ct [] t) [] = Ok (ct_flat [] t).
+Proof. exact tree_ext_whole. Qed.
+Print Assumptions C12_we_read_git_tree.
+
+(* resolve-undo: resolve_undo_write against resolveUndoDecoder *)
+Theorem C12_we_read_git_reuc : forall hs, (0 < hs)%nat -> forall l, forallb (wf_reuc hs) l = true ->
+  read_reuc_ext hs (S (List.length (g_write_reuc l))) (g_write_reuc l) [] = Ok (map reuc_view l).
+Proof. exact reuc_ext_whole. Qed.
+Print Assumptions C12_we_read_git_reuc.
+
+(* EOIE: in a SHA-1 repository read_eoie_extension accepts the extension do_write_index emits (when another
+   extension precedes it) and returns the offset go-git reports; C12_eoie_sha256 below: in a SHA-256
+   repository git's reader never accepts git's own EOIE (it insists on 4 + 20 bytes) *)
+Theorem C12_git_eoie_accepts_own : forall H, (forall x, List.length (H x) = 20%nat) ->
+  forall skip_w g,
+  forallb ext_ok (g_ext_list g) = true -> g_ext_list g <> [] ->
+  git_eoie_offset 20 g < 4294967296 ->
+  g_read_eoie 20 H (git_encode 20 H true skip_w g) = git_eoie_offset 20 g.
+Proof. exact eoie_accepts_own. Qed.
+Print Assumptions C12_git_eoie_accepts_own.
+
+(* varint.c and utils/binary agree: same bytes written; where go-git's reader succeeds git's returns the same *)
+Theorem C12_git_varint_agree :
+  (forall n, g_encode_varint n = varint n) /\
+  (forall b r, read_varint b = Ok r -> g_decode_varint b = GOk r).
+Proof. split; [exact g_encode_varint_eq|exact g_decode_varint_of_read]. Qed.
+Print Assumptions C12_git_varint_agree.
+
 (* non-vacuity *)
 Example C12_varint_examples :
   varint 0 = [0] /\ varint 127 = [127] /\ varint 128 = [128; 0] /\ varint 16511 = [255; 127] /\ varint 16512 = [128; 128; 0].
@@ -77,3 +167,45 @@ Example C12_wf_example :
   | Err _ => False
   end.
 Proof. vm_compute. split; reflexivity. Qed.
+
+(* a git state with everything in it: version 2 promoted to 3 by a skip-worktree entry, assume-valid bit,
+   nsec >= 10^9, conflict stages, nested cache tree with an invalidated node, resolve-undo, UNTR, EOIE *)
+Definition C12_example_state : gindex :=
+  let oid k := repeat k 20 in
+  mkGI 2
+    [mkGE 1 2000000000 3 4 5 6 33188 7 8 9 (oid 1) 0 false true false true [97; 47; 98];
+     mkGE 0 0 0 0 0 0 33261 0 0 0 (oid 2) 1 false false false false [97; 47; 99];
+     mkGE 0 0 0 0 0 0 33261 0 0 0 (oid 3) 3 false false false false [97; 47; 99]]
+    (Some (CT 2 (oid 4) (CCons [97] (CT (-1) [] (CCons [120] (CT 1 (oid 5) CNil) CNil)) CNil)))
+    (Some [mkGR [122] 33188 0 40960 (oid 6) [] (oid 7)])
+    (Some [1; 2; 3]) None false.
+
+Example C12_we_read_git_example :
+  let Hf := fun _ : bytes => repeat 9 20 in
+  wf_gindex 20 true C12_example_state = true /\
+  decode 20 Hf false (git_encode 20 Hf true false C12_example_state) = Ok (go_view 20 Hf true C12_example_state) /\
+  i_version (go_view 20 Hf true C12_example_state) = 3 /\
+  i_cache (go_view 20 Hf true C12_example_state) =
+    Some [mkTE [] 2 1 (repeat 4 20); mkTE [120] 1 0 (repeat 5 20)] /\
+  g_read_eoie 20 Hf (git_encode 20 Hf true false C12_example_state) = git_eoie_offset 20 C12_example_state.
+Proof. vm_compute. repeat split; reflexivity. Qed.
+
+Example C12_git_reads_ours_example :
+  let e1 := mkEntry [97; 47; 98] 0 (TUnix 1700000000 5) TZero 1 2 33188 3 4 5 (repeat 7 20) true false in
+  let e2 := mkEntry [97] 2 TZero (TUnix 1 0) 0 0 40960 0 0 0 (repeat 9 20) false true in
+  let Hf := fun _ : bytes => repeat 1 20 in
+  no_merged_dup (sort_entries [e1; e2]) = true /\
+  match encode 20 Hf false 2 [e1; e2] with
+  | Ok f => git_decode 20 Hf (mkGM true false false) f = GOk (git_view 2 [e2; e1]) /\
+            map ge_flags (gi_entries (git_view 2 [e2; e1])) = [536895488; 1073758208]
+  | Err _ => False
+  end.
+Proof. vm_compute. repeat split; reflexivity. Qed.
+
+(* SHA-256: the extension git writes is 4 + 32 bytes long, the reader looks for one of 4 + 20 *)
+Example C12_eoie_sha256 :
+  let Hf := fun _ : bytes => repeat 7 32 in
+  let g := mkGI 2 [] None None (Some [1; 2; 3]) None false in
+  g_read_eoie 32 Hf (git_encode 32 Hf true false g) = 0 /\
+  g_read_eoie 20 (fun _ => repeat 7 20) (git_encode 20 (fun _ => repeat 7 20) true false g) = 12.
+Proof. exact eoie_sha256_example. Qed.
